@@ -298,6 +298,32 @@ def run(ctx, eng):
                 op[2][1][0] == 'comp' and op[2][1][2] == ('p', 'frames')
     ctx.ob('FLOW.emit', fp.qual, 'frames serialised in list order', ok,
            'b"".join(f.serialize() for f in frames) appended', node=fp.node)
+    # update_settings: the frame carries exactly the settings asked for, and
+    # exactly those are queued as pending
+    fu = m.func(H + 'update_settings')
+    bad = []
+    n = 0
+    for p in cm.normal_paths(eng.I.run(fu)):
+        n += 1
+        sf = [e for e in p.events if e.kind == 'new' and
+              e.cls == 'SettingsFrame']
+        if len(sf) != 1:
+            bad.append('exactly one SETTINGS frame expected')
+            continue
+        f = p.state.objs.get(sf[0].obj, {})
+        if f.get('settings') != ('p', 'new_settings'):
+            bad.append('the frame carries %s, not the new_settings argument'
+                       % cm.show0(f.get('settings')) if f.get('settings')
+                       else 'the frame carries no settings')
+        up = [e for e in p.events if e.kind == 'call' and
+              cm.ev_callee_names(e) & {'update', 'MutableMapping.update'} and
+              cm.attr_chain(e.get('recv')) == 'self.local_settings']
+        if len(up) != 1 or up[0].args[0] != ('p', 'new_settings'):
+            bad.append('local_settings.update(new_settings) expected')
+    ctx.ob('FLOW.contract', fu.qual, 'SETTINGS carries the requested values',
+           n > 0 and not bad, '; '.join(sorted(set(bad))) or
+           's.settings = new_settings; local_settings.update(new_settings)',
+           node=fu.node)
     # the size check reads Frame.body_len, which hyperframe fills in inside
     # serialize() (it is 0 until then): a check placed before the
     # serialisation compares 0 with the limit and never fires
